@@ -281,11 +281,12 @@ func (c *SessionCache) InvalidateExpired() int {
 	c.mu.Lock()
 	defer c.mu.Unlock()
 
-	now := time.Now()
 	count := 0
 
 	for id, entry := range c.sessions {
-		if !entry.expiration.IsZero() && now.After(entry.expiration) {
+		// IsExpired takes the entry's own lock: expiration is rewritten by
+		// RenewLease on whichever connection is resuming the session.
+		if entry.IsExpired() {
 			delete(c.sessions, id)
 			count++
 		}
@@ -319,8 +320,8 @@ func (c *SessionCache) DebugDump() string {
 	b.WriteString("sessions:\n")
 	for id, entry := range c.sessions {
 		exp := "never"
-		if !entry.expiration.IsZero() {
-			exp = entry.expiration.Format(time.RFC3339Nano)
+		if t := entry.Expiration(); !t.IsZero() {
+			exp = t.Format(time.RFC3339Nano)
 		}
 		fmt.Fprintf(&b, "- id=%s addr=%s tag=%s lease=%s exp=%s\n", id, entry.addr, entry.tag, entry.lease, exp)
 	}
